@@ -1,18 +1,36 @@
-"""probe for contracts/c15_assembly.py part 1: run the configurations, print every obligation"""
+"""probe for contracts/c15_assembly.py part 1: (1) every configuration, non-proved obligations printed; (2) MUST-FAIL guard: with a deliberately
+wrong specification (the value appended is the NEXT one of the stream; the result is the number of rows) the step / exit obligations that
+are proved against the real specification must be REFUTED - so they are not vacuously true"""
 import sys, time
 sys.path.insert(0, '/verif')
+import z3
 from contracts import c15_assembly as c
-only = sys.argv[1:] 
-for cfg in c.CFGS:
-    t = time.time()
-    res = c.check_assemble(cfg, 20000)
-    print("==", cfg, f"{time.time()-t:.1f}s")
+
+def show(res, only_bad=True):
     for name in res.order:
         st = res.status(name)
         e = next(x for x in res.d[name] if x[0] == st)
-        if only and st == "proved" and "-v" not in only:
+        if st == "proved" and only_bad:
             continue
         print(f"  {st:8s} {res.kind.get(name,'?'):10s} {name}  ({len(res.d[name])} paths, {sum(x[2] for x in res.d[name]):.2f}s)")
         if st != "proved":
             print("        ", e[1], "|", (e[4] or "")[:100])
-    if "-1" in only: break
+
+for cfg in c.CFGS:
+    t = time.time()
+    res = c.check_assemble(cfg, 20000)
+    print("==", cfg, f"{time.time()-t:.1f}s", len(res.order), "obligations")
+    show(res, "-v" not in sys.argv)
+
+print("== must-fail guard (wrong specification)")
+real_step, real_rows = c.spec_step, c.ROWS
+def wrong_step(s, S, k):
+    good = real_step(s, S, k)
+    return c.Rows(good.none, good.ln, lambda r, j: z3.If(good.elt(r, j) >= 0, good.elt(r, j) + 2, good.elt(r, j)))
+c.spec_step = wrong_step
+res = c.check_assemble(c.CFGS[0], 20000)
+must = [n for n in res.order if ".rows_match_spec" in n and "step[" in n and "nulls_only" not in n]
+bad = [n for n in must if res.status(n) != "refuted"]
+print("  step obligations refuted under the wrong specification:", len(must) - len(bad), "of", len(must), "| not refuted:", bad)
+c.spec_step = real_step
+sys.exit(1 if bad else 0)
